@@ -130,7 +130,7 @@ def analyse_tu(eng, cfg):
     ctx = irrules.constructor_context(eng)
     rule = AllocRule(eng, cfg, ctx)
     nfun = 0
-    for f in irrules.gch_roots(eng):
+    for f in irrules.maximal_roots(eng):
         # only functions that can reach an allocation are interesting
         if 'ALLOC' not in eng.oracle.effects.get(f.name, ()):
             continue
